@@ -153,6 +153,31 @@ SEEDS = {
         property="C14", change="same display-table cache slip as C15-display-cache-stale, offered for C14",
         needs="display rules added at run time to a cached list until its display table grows and moves",
         first="missed by C14 (caught by C15)", strengthened="C14 got a display-rule operation and every fifth sequence runs without arena slack"),
+    "C15b-compilestring-errorcount": dict(
+        property="C15", change="compileString returns !errorCount, but only compileTable resets that static counter",
+        needs="a rejected lou_compileString call followed by a valid one with no compilation of a new list in between",
+        first="caught (C15 and C14: add-result, a valid rule answered with 0)", strengthened=""),
+    "C16b-getachar-nul-ends": dict(
+        property="C16", change="getAChar loops `while ((ch1 = fgetc()) > 0)`: a NUL byte ends the file",
+        needs="a table file stored as UTF-16 big-endian",
+        first="caught (C16: reader mismatch on byte files and the UTF-16BE packaging variant)", strengthened=""),
+    "C17b-hyph-low-clamp-removed": dict(
+        property="C17", change="the low clamp of the pattern merge in hyphenateWord removed (the defect fixed by b07c8a88 re-introduced)",
+        needs="a dictionary pattern with a non-zero digit before a leading dot and a word starting with its letters",
+        first="caught (C17: hyphens out of bounds / mismatch on generated dictionaries; C02: ASan crash)", strengthened=""),
+    "C18b-match-first-value-only": dict(
+        property="C18", change="matchFeatureLists compares only the first value of a repeated key",
+        needs="a table header declaring one non-language key twice with different values, a query for the later value",
+        first="caught (C18: select mismatch)", strengthened=""),
+    "C19b-widecharbuf-format": dict(
+        property="C19", change="_lou_logWidecharBuf passes the dump (containing caller text) as the format string",
+        needs="threshold ALL and a '%' in the translated text",
+        first="caught at proof level only (formats_are_literals: the regenerated inventory of format call sites)",
+        strengthened="an operation that translates given text and an exact oracle for the input dump logged at level ALL: concrete replay"),
+    "C20b-directory-as-given": dict(
+        property="C20", change="the `not a directory` test dropped from the name-as-given candidate of resolveSubtable",
+        needs="a directory named like the table in the working directory / at the literal path, the table elsewhere on the path",
+        first="missed", strengthened="a third state per location in the exhaustive arrangement: a directory of that name"),
     "C03c-nocont-mode-check": dict(
         property="C03", change="the noContractions test dropped from the nocont case of for_selectRule (doNocont returns at once in that mode)",
         needs="noContractions mode, a nocont rule, input containing its string",
